@@ -222,3 +222,19 @@ func ErrString(err error) string {
 }
 
 var ErrSkip = errors.New("skip")
+
+// Translate copies vals into zctx (types canonical there).  The repo's
+// expression evaluators cache field positions by type id, which is only
+// meaningful within one context, so values from different queries must be
+// brought into one context before they are compared with repo comparators.
+func Translate(zctx *zed.Context, vals []zed.Value) []zed.Value {
+	out := make([]zed.Value, len(vals))
+	for i, v := range vals {
+		typ, err := zctx.TranslateType(v.Type())
+		if err != nil {
+			panic(err)
+		}
+		out[i] = zed.NewValue(typ, v.Bytes()).Copy()
+	}
+	return out
+}
